@@ -258,6 +258,15 @@ func (e *Engine) evalCall(st *State, call *ast.CallExpr) Value {
 				return e.evalGhostOf(st, call)
 			}
 		}
+		if id, ok := ix.X.(*ast.Ident); ok && id.Name == "isType" {
+			if f, ok := e.pkg.info.Uses[id].(*types.Func); ok && f.Pkg() == nil {
+				iv, ok := e.eval(st, call.Args[0]).(IfaceV)
+				if !ok {
+					e.fail(call, "isType on a non-interface value")
+				}
+				return BoolV{And(Ne(iv.ref, I(0)), Eq(iv.tag, e.typeID(e.typeOf(ix.Index))))}
+			}
+		}
 	}
 	if id, ok := funX.(*ast.Ident); ok {
 		switch o := e.pkg.info.Uses[id].(type) {
@@ -383,9 +392,13 @@ func (e *Engine) dispatch(st *State, fn *types.Func, args []Value, call *ast.Cal
 	if fc := e.prog.contracts[full]; fc != nil && !fc.inline {
 		return e.callContract(st, fc, args, call)
 	}
-	if fi := e.prog.funcs[full]; fi != nil && fi.decl.Body != nil && strings.HasPrefix(fn.Pkg().Path(), repoModule) {
+	if fi := e.prog.funcs[full]; fi != nil && fi.decl.Body != nil {
 		fc := e.prog.contracts[full]
-		if (fc != nil && fc.inline) || e.inlinable(fi) {
+		inRepo := strings.HasPrefix(fn.Pkg().Path(), repoModule)
+		if fc != nil && fc.inline && !inRepo {
+			e.noteAssumption("dependency function expanded from its source in the module cache: " + full)
+		}
+		if (fc != nil && fc.inline) || inRepo && e.inlinable(fi) {
 			return e.inlineFunc(st, fi, args, call)
 		}
 	}
@@ -1168,6 +1181,8 @@ func (e *Engine) evalSpecHelper(st *State, call *ast.CallExpr, name string) Valu
 			return BoolV{Ge(x.blk, base)}
 		case RefV:
 			return BoolV{Ge(x.t, base)}
+		case IfaceV:
+			return BoolV{Ge(x.ref, base)}
 		}
 		e.fail(call, "fresh of %T", v)
 	case "sameSlice":
@@ -1213,7 +1228,7 @@ func (e *Engine) evalSpecHelper(st *State, call *ast.CallExpr, name string) Valu
 		var argTs []T
 		for _, a := range call.Args[1:] {
 			v := e.eval(st, a)
-			argTs = append(argTs, e.flatten(st, v, e.typeOf(a))...)
+			argTs = append(argTs, e.ghostCells(st, v, e.typeOf(a))...)
 		}
 		sortS := "Int"
 		rs := SInt
@@ -1410,6 +1425,15 @@ func (e *Engine) evalSpecHelper(st *State, call *ast.CallExpr, name string) Valu
 	}
 	e.fail(call, "unknown spec helper %s", name)
 	return nil
+}
+
+// ghostCells: the cells by which a ghost observer identifies its argument: an interface value (and a pointer boxed
+// in it) is identified by its reference alone, so observers agree on a pointer and the interface holding it.
+func (e *Engine) ghostCells(st *State, v Value, t types.Type) []T {
+	if iv, ok := v.(IfaceV); ok {
+		return []T{iv.ref}
+	}
+	return e.flatten(st, v, t)
 }
 
 func (e *Engine) ghostRangeAxiom(gname string, n int, kind string) {
@@ -1657,7 +1681,7 @@ func (e *Engine) evalGhostOf(st *State, call *ast.CallExpr) Value {
 	var argTs []T
 	for _, a := range call.Args[1:] {
 		v := e.eval(st, a)
-		argTs = append(argTs, e.flatten(st, v, e.typeOf(a))...)
+		argTs = append(argTs, e.ghostCells(st, v, e.typeOf(a))...)
 	}
 	decl := fmt.Sprintf("(declare-fun %s (%s) Int)", gname, strings.TrimSpace(strings.Repeat("Int ", len(argTs))))
 	e.declareUF(gname, decl)
